@@ -53,6 +53,18 @@ func (a *attackAnchors) workerGos() []*ssa.Go {
 					return
 				}
 			}
+			// the worker written as a function literal: it captures the results channel and sends on it
+			if callee.Parent() != nil && a.Results != nil {
+				sends := false
+				eachInstr(callee, func(j ssa.Instruction) {
+					if sd, isSend := j.(*ssa.Send); isSend && valueOrCell(sd.Chan) == a.Results {
+						sends = true
+					}
+				})
+				if sends {
+					out = append(out, g)
+				}
+			}
 		})
 	}
 	return out
